@@ -276,6 +276,62 @@ unsafe fn observe<'a>(mgr: *mut c_void, c: CB, nat: BddPtr<'a>, want: TT, n: usi
 }
 
 /// lock-step sweep over all functions of n variables
+/// wide managers: model counts of constants, literals, cubes, clauses and their negations at
+/// the first / middle / last positions of an `nv`-variable manager against the closed form
+fn wide_counts(nv: usize) -> Report {
+    let mut rep = Report::default();
+    rep.exhaustive = true;
+    unsafe {
+        let mgr = mk_bdd_manager_default_order(nv as u64);
+        let total: u128 = 1u128 << nv;
+        let mut chk = |c: CB, want: u128, what: String, rep: &mut Report| {
+            let mc = robdd_model_count(mgr, c);
+            rep.transitions += 1;
+            if mc as u128 != want {
+                rep.violation("ffi:model-count", format!("{} variables, {}: robdd_model_count = {}, the function has {} models", nv, what, mc, want), json!({"kind": "ffi_wide", "n": nv}));
+            }
+        };
+        let t = bdd_true(mgr);
+        let f = bdd_false(mgr);
+        chk(t, total, "true".into(), &mut rep);
+        chk(f, 0, "false".into(), &mut rep);
+        let mut pos: Vec<usize> = vec![0, nv / 2, nv - 1];
+        pos.dedup();
+        for &a in pos.iter() {
+            for pa in [true, false] {
+                let xa = bdd_var(mgr, a as u64, pa);
+                chk(xa, total / 2, format!("literal on variable {}", a), &mut rep);
+                for &b in pos.iter() {
+                    if b == a {
+                        continue;
+                    }
+                    for pb in [true, false] {
+                        let xb = bdd_var(mgr, b as u64, pb);
+                        let and = bdd_and(mgr, xa, xb);
+                        let or = bdd_or(mgr, xa, xb);
+                        chk(and, total / 4, format!("and of literals on {} and {}", a, b), &mut rep);
+                        chk(or, total / 4 * 3, format!("or of literals on {} and {}", a, b), &mut rep);
+                        chk(bdd_negate(mgr, and), total / 4 * 3, format!("negated and of literals on {} and {}", a, b), &mut rep);
+                        for &c in pos.iter() {
+                            if c == a || c == b {
+                                continue;
+                            }
+                            let xc = bdd_var(mgr, c as u64, true);
+                            chk(bdd_and(mgr, and, xc), total / 8, format!("cube on {}, {}, {}", a, b, c), &mut rep);
+                            chk(bdd_or(mgr, or, xc), total / 8 * 7, format!("clause on {}, {}, {}", a, b, c), &mut rep);
+                            chk(bdd_ite(mgr, xa, xb, xc), total / 2, format!("ite on {}, {}, {}", a, b, c), &mut rep);
+                        }
+                    }
+                }
+            }
+        }
+        free_bdd_manager(mgr);
+    }
+    rep.states = 1;
+    rep.traces = 1;
+    rep
+}
+
 fn sweep(n: usize, ctx: &Ctx) -> Report {
     let mut rep = Report::default();
     rep.exhaustive = true;
@@ -530,6 +586,12 @@ pub fn run(ctx: &Ctx) -> Report {
     let ns: Vec<usize> = ctx.tier.pick(vec![1, 2, 3], vec![1, 2, 3]);
     let r = par_run(ctx, &ns, |_, n| sweep(*n, ctx));
     rep.merge(r);
+    // wide managers (counts up to 2^48, far above every 32-bit quantity)
+    let wides: Vec<usize> = ctx.tier.pick(vec![4, 8, 16, 20, 21, 24, 31, 32, 33, 40, 48], (4..=56).collect());
+    let w = par_run(ctx, &wides, |_, nv| wide_counts(*nv));
+    rep.add_extra("wide_manager_model_counts", w.transitions);
+    rep.bound("wide_managers", json!({"variables": wides, "functions": "constants, literals, 2-literal and/or, negations, 3-literal cubes/clauses/ite at the first/middle/last positions"}));
+    rep.merge(w);
     // constructors
     let types = clause_types(3);
     let mut sets = multisets(64, 2);
@@ -567,6 +629,7 @@ pub fn replay(ctx: &Ctx, case: &Value) -> Report {
     let mut rep = Report::default();
     match case["kind"].as_str() {
         Some("ffi_cnf") => check_cnf_path(&cnf_from_json(&case["cnf"]), &mut rep),
+        Some("ffi_wide") => rep.merge(wide_counts(case["n"].as_u64().unwrap_or(20) as usize)),
         _ => {
             let n = case["n"].as_u64().unwrap_or(3) as usize;
             rep.merge(sweep(n.min(3), ctx));
